@@ -287,7 +287,8 @@ func runC09(c *an.Ctx) {
 			nTracked++
 			withTrusted := false
 			for _, f := range hf.AtInstr(call) {
-				if f.Op == "B" && f.Pos && strings.HasPrefix(f.A, "!IsZero(") && strings.Contains(f.A, ".TrustedHead") {
+				if f.Op == "B" && strings.Contains(f.A, ".TrustedHead") &&
+					((f.Pos && strings.HasPrefix(f.A, "!IsZero(")) || (!f.Pos && strings.HasPrefix(f.A, "IsZero("))) {
 					withTrusted = true
 				}
 			}
